@@ -173,8 +173,10 @@ def run(ctx):
                LG + ".loghandler.RotatingFileHandler",
                LG + ".loghandler.TimedRotatingFileHandler"):
         c = m.cls(cq)
-        init = c.methods.get("__init__")
-        close = c.methods.get("close")
+        # (the methods the class effectively has: its own or those of a
+        # repository mixin / base in front of the logging class)
+        init = m.lookup_method(cq, "__init__")
+        close = m.lookup_method(cq, "close")
         has_reopen = m.lookup_method(cq, "reopen") is not None
         # decided on the interpreted paths (helpers the rules do not know
         # are seen through): every normal path of the constructor appends
